@@ -373,6 +373,7 @@ pub fn property() -> Property {
         id: "C18",
         cases,
         clauses: &["actor-runs-after-spawn-returned"],
+        full_rerun_check: true,
         assumptions: &[
             "each runtime is represented by its shim in src/verif.rs (tokio: drop = detach, JoinError on panic/cancel; async-std: drop = detach, awaiting a failed task panics; smol: drop = cancel, detach() = run on); the shims are bound to the real runtimes by `mc conformance`, run in setup and by this check",
             "wall-clock behaviour is out of scope: timers run on the virtual clock on all three",
